@@ -11,36 +11,52 @@ Theorem C19_inv_init : forall g0, Inv g0 (init g0).
 Proof. exact inv_init. Qed.
 Print Assumptions C19_inv_init.
 
-(* Every operation — AddGroup (accepted or refused), remove(last), removeFromCommonAncestor, restart —
-   keeps the invariant, and a restart never panics or diverges. *)
-Theorem C19_inv_step : forall g0, genesis_ok g0 -> forall s o, Inv g0 s -> op_wf o ->
+(* Every operation of the node — AddGroup (accepted or refused), remove(last), removeFromCommonAncestor,
+   the fork switch triggerOnChain, restart — keeps the invariant, and a restart never panics or diverges. *)
+Theorem C19_inv_step : forall g0, genesis_ok g0 -> forall s o, Inv g0 s -> op_wf o -> no_loss o ->
   Inv g0 (fst (step true g0 s o)) /\ snd (step true g0 s o) < 98.
 Proof. exact inv_step. Qed.
 Print Assumptions C19_inv_step.
 
-(* The invariant implies the property as stated, on the observable lookups only: the predecessor walk
-   from the last group ends at genesis having visited the list, count = length, height i answers with
-   the i-th group below count and with nothing at or above it, every listed group is found by id. *)
-Theorem C19_inv_implies_property : forall g0, genesis_ok g0 -> forall s, Inv g0 s -> Spec g0 s.
-Proof. exact inv_spec. Qed.
+(* The weak invariant (the sqlite index may miss rows, everything else as in Inv) is kept by every
+   operation including the loss of arbitrary sqlite rows outside the node ... *)
+Theorem C19_invw_step : forall g0, genesis_ok g0 -> forall s o, InvW g0 s -> op_wf o ->
+  InvW g0 (fst (step true g0 s o)) /\ snd (step true g0 s o) < 98.
+Proof. exact invw_step. Qed.
+Print Assumptions C19_invw_step.
+
+(* ... and a restart (refreshCache's predecessor walk) turns it back into the full invariant. *)
+Theorem C19_restart_restores : forall g0, genesis_ok g0 -> forall s, InvW g0 s ->
+  Inv g0 (fst (step true g0 s Restart)).
+Proof. exact restart_restores. Qed.
+Print Assumptions C19_restart_restores.
+
+(* Already the weak invariant implies the property as stated, on the observable lookups only: the
+   predecessor walk from the last group ends at genesis having visited the list, count = length,
+   height i answers with the i-th group below count and with nothing at or above it, every listed group
+   is found by id. *)
+Theorem C19_inv_implies_property : forall g0, genesis_ok g0 -> forall s, InvW g0 s -> Spec g0 s.
+Proof. intros g0 G s. exact (inv_spec g0 G SqSub s). Qed.
 Print Assumptions C19_inv_implies_property.
 
-(* A restart after any reachable state gives back exactly that state (store and memory mirror). *)
+(* A restart after any state satisfying the full invariant gives back exactly that state. *)
 Theorem C19_restart_identity : forall g0 s, Inv g0 s -> boot (st s) g0 = BootOk s.
 Proof. exact restart_identity. Qed.
 Print Assumptions C19_restart_identity.
 
-(* Headline: after every history of additions, removals and restarts (in any order, including
-   remove followed by adding a different group at the same height) the property holds, the sync
-   answer lists exactly the following groups, the sqlite index agrees with the list, a further restart
-   changes nothing, and no restart on the way failed. *)
+(* Headline: after every history of additions, removals, fork switches, restarts and sqlite row losses
+   (in any order, including remove followed by adding a different group at the same height) the
+   property holds, the sync answer lists exactly the following groups and no restart on the way failed;
+   and when no sqlite row was lost since the last restart (or at all) the sqlite index agrees with the
+   list and a further restart changes nothing. *)
 Theorem C19_reachable : forall g0 ops, genesis_ok g0 -> Forall op_wf ops ->
   let s := fst (run true g0 (init g0) ops) in
   (exists l, SpecL g0 s l /\ SyncL s l) /\
-  sq_count (sq (st s)) = count s /\
-  (forall x, sq_lookup (sq (st s)) x = option_map gheight (get_by_id s x)) /\
-  step true g0 s Restart = (s, 0) /\
-  Forall (fun c => c < 98) (snd (run true g0 (init g0) ops)).
+  Forall (fun c => c < 98) (snd (run true g0 (init g0) ops)) /\
+  (index_settled ops ->
+     sq_count (sq (st s)) = count s /\
+     (forall x, sq_lookup (sq (st s)) x = option_map gheight (get_by_id s x)) /\
+     step true g0 s Restart = (s, 0)).
 Proof. exact reachable_spec. Qed.
 Print Assumptions C19_reachable.
 
@@ -68,16 +84,23 @@ Proof. exact original_without_remove. Qed.
 Print Assumptions C19_original_without_remove.
 
 (* Non-vacuity: a history with add, remove, re-add of a different group at the same height, a fork
-   switch and restarts satisfies the hypotheses; its final list is genesis, 5, 6. *)
+   switch, the loss of sqlite rows and restarts satisfies the hypotheses (the index is settled: the last
+   loss is followed by a restart); its final list is genesis, 5, 6, 7 and sqlite has the four rows. *)
 Example C19_example :
   let g0 := mkG 1 0 0 0 in
   let ops := [Add (mkG 2 1 1 0); Add (mkG 3 2 1 0); RemoveLast; Restart; Add (mkG 4 2 2 0);
-              RemoveFrom 0; Add (mkG 5 1 1 0); Restart; Add (mkG 6 5 1 0)] in
-  genesis_ok g0 /\ Forall op_wf ops /\
+              DropIndex [1; 4]; ForkSwitch 0 [mkG 5 1 1 1; mkG 6 5 1 2]; Restart; Add (mkG 7 6 5 0)] in
+  genesis_ok g0 /\ Forall op_wf ops /\ index_settled ops /\
   let s := fst (run true g0 (init g0) ops) in
-  count s = 3 /\ map gid (walk 10 s (last s)) = [6; 5; 1] /\ snd (run true g0 (init g0) ops) = [0;0;0;0;0;0;0;0;0].
+  count s = 4 /\ map gid (walk 10 s (last s)) = [7; 6; 5; 1] /\
+  snd (run true g0 (init g0) ops) = [0;0;0;0;0;0;0;0;0] /\
+  map (sq_lookup (sq (st s))) [1; 2; 5; 6; 7] = [Some 0; None; Some 1; Some 2; Some 3].
 Proof.
   cbn zeta. split; [split; [discriminate|reflexivity]|].
   split; [repeat constructor; discriminate|].
-  vm_compute. repeat split.
+  split.
+  - exists [Add (mkG 2 1 1 0); Add (mkG 3 2 1 0); RemoveLast; Restart; Add (mkG 4 2 2 0);
+            DropIndex [1; 4]; ForkSwitch 0 [mkG 5 1 1 1; mkG 6 5 1 2]], [Add (mkG 7 6 5 0)].
+    split; [repeat constructor|]. right. reflexivity.
+  - vm_compute. repeat split.
 Qed.
